@@ -11,13 +11,17 @@ import re
 import time
 
 from . import cosim, dutgen
-from .common import muted, rng, shard_slice, stable_hash
+from .common import muted, rng, shard_slice, stable_hash, run_dir
 
 LEVEL = 'exploration'
 RULE = ('histories = random sequences of 12 (quick) / 40 (thorough) operations {hierarchy generation with the same or a fresh generator, '
         'for the top or a sub-object, with a createdStructures list; single-module getVerilog from the object and from each ancestor; clk(k) '
         'with random inputs; adding a block to the live circuit; generation for another circuit in between} over 1-3 random circuits and '
-        'their twins; non-trivial = history with >= 2 generation calls on one circuit separated by a simulation step, an addition or a '
+        'their twins; plus behavioural histories (vlib/c19_beh.py): 2-3 circuits instantiating one generated behavioural (transpiled) class with '
+        'different constructor constants and state initialisers of every accepted kind (int 0, int n, True, False), clk steps interleaved with '
+        'generation requests for the circuits in random order (generation in mid-run), every attribute of the block compared before/after each '
+        'request, outputs and state compared with a twin after every clock, each distinct text co-simulated from power-up against a fresh '
+        'instance with that circuit\'s constants; non-trivial = history with >= 2 generation calls on one circuit separated by a simulation step, an addition or a '
         'generation for another circuit; distinct by hash of (plans, operation list)')
 SHARDS = {'quick': 1, 'thorough': 16}
 TIMEOUT = {'quick': 900, 'thorough': 3300}
@@ -515,6 +519,11 @@ def run_check(run, tier, seed, shard):
             break
         run.count('histories')
         run_history(run, seed, idx, n_ops, None)
+    # behavioural (transpiled) blocks with constructor constants and every kind of state initialiser: several circuits of one class
+    # alive in the process, generation interleaved between them and requested in mid-run (vlib/c19_beh.py)
+    from . import c19_beh
+    with run_dir() as d:
+        c19_beh.run_all(run, d, seed, [i for i in shard_slice(range(90 if quick else 4000), shard) if time.time() < deadline], 10 if quick else 24)
     if run.counters.get('text_comparisons', 0) == 0 or run.counters.get('trace_comparisons', 0) == 0:
         run.inconclusive.append('no text or trace comparison was made')
     if time.time() > deadline:
